@@ -101,6 +101,15 @@ def map_desc(fi, e):
 
     if isinstance(e, (ast.ListComp, ast.DictComp)):
         return comp(e, [])
+    # dict(zip(D.keys(), [E(v) for v in D.values()])): keys and values of one dict iterate in the same order
+    if isinstance(e, ast.Call) and norm(e.func) == "dict" and len(e.args) == 1 and not e.keywords and isinstance(e.args[0], ast.Call) and norm(e.args[0].func) == "zip" and len(e.args[0].args) == 2:
+        ks, vs = e.args[0].args
+        if isinstance(ks, ast.Call) and isinstance(ks.func, ast.Attribute) and ks.func.attr == "keys" and not ks.args:
+            d = norm(ks.func.value)
+            inner = map_desc(fi, vs)
+            if inner is not None and inner[0] == [] and inner[1] == f"{d}.values()" and inner[3] is None:
+                return ([], f"{d}.items()", inner[2], "key")
+        return None
     if isinstance(e, ast.BinOp) and isinstance(e.op, ast.Add) and isinstance(e.left, ast.List):
         return comp(e.right, [norm(x) for x in e.left.elts])
     if isinstance(e, ast.List) and e.elts and isinstance(e.elts[-1], ast.Starred):
@@ -132,7 +141,7 @@ def map_desc(fi, e):
             if len(touching) == 1 and not exits and not n.orelse:
                 b0 = touching[0]
                 if isinstance(n.target, ast.Name) and isinstance(b0, ast.Expr) and isinstance(b0.value, ast.Call) and norm(b0.value.func) == f"{acc}.append" and len(b0.value.args) == 1:
-                    muts.append((prefix, norm(n.iter), elt_text(b0.value.args[0], n.target.id), None))
+                    muts.append((prefix, norm(resolve(n.iter, fi) if isinstance(n.iter, ast.Name) and n.iter.id.endswith("__h") and isinstance(resolve(n.iter, fi), (ast.Call, ast.Attribute, ast.Subscript)) else n.iter), elt_text(b0.value.args[0], n.target.id), None))
                     continue
                 if isinstance(n.target, ast.Tuple) and len(n.target.elts) == 2 and isinstance(b0, ast.Assign) and isinstance(b0.targets[0], ast.Subscript) and norm(b0.targets[0].value) == acc and norm(b0.targets[0].slice) == norm(n.target.elts[0]):
                     muts.append((prefix, norm(n.iter), elt_text(b0.value, norm(n.target.elts[1])), "key"))
